@@ -19,7 +19,7 @@ let rec parse_steps toks = match toks with
 let show st = String.concat "," (List.map (function M (a, b) -> Printf.sprintf "M%d-%d" a b | R (a, b) -> Printf.sprintf "R%d-%d" a b | D -> "D") st)
 
 let run () =
-  let cases = ref 0 and checks = ref 0 and mism = ref 0 and pviol = ref 0 and nontrivial = ref 0 in
+  let cases = ref 0 and checks = ref 0 and mism = ref 0 and pviol = ref 0 and nontrivial = ref 0 and skipped = ref 0 in
   let id = ref "" and pat = ref "" and hay = ref "" in
   let ms : (int * int) list ref = ref [] in
   let fsteps = ref [] and bsteps = ref [] in
@@ -80,6 +80,7 @@ let run () =
       if f <> !fsteps then viol "interleaved-forward-steps-differ-from-forward-only";
       if bk <> !bsteps then viol "interleaved-backward-steps-differ-from-backward-only"
     | [] -> ()
+    | "K" :: n :: _ -> skipped := !skipped + int_of_string n   (* cases over the step budget, skipped by the harness *)
     | _ -> failwith ("bad line: " ^ line)
   done with End_of_file -> ());
-  Printf.printf "SUMMARY cases=%d runs=%d mismatches=%d nontrivial=%d propviol=%d\n" !cases !checks !mism !nontrivial !pviol
+  Printf.printf "SUMMARY cases=%d runs=%d mismatches=%d nontrivial=%d propviol=%d skipped_over_budget=%d\n" !cases !checks !mism !nontrivial !pviol !skipped
